@@ -412,11 +412,6 @@ func (c *ComputedStyle) cascadeValue(key pr.PropKey) (value pr.DeclaredValue, sa
 		}
 	}
 
-	if value == pr.Inherit && c.isRootElement() {
-		// On the root element, "inherit" from initial values
-		value = pr.Initial
-	}
-
 	parent_style := c.parentStyle
 	if rawTokens, isPending := value.(pr.RawTokens); isPending { // Property with pending values, validate them.
 		var (
@@ -451,11 +446,12 @@ func (c *ComputedStyle) cascadeValue(key pr.PropKey) (value pr.DeclaredValue, sa
 			logger.WarningLogger.Printf("Ignored `%s: %s`, %s",
 				key, pa.Serialize(solvedTokens), err)
 
-			if pr.Inherited.Has(key.KnownProp) {
+			if pr.Inherited.Has(key.KnownProp) && !c.isRootElement() {
 				// Values in parent_style are already computed.
 				save = true
 				value = parent_style.Get(key)
 			} else {
+				// (on the root element, inherited properties take their initial values)
 				value = pr.InitialValues[key.KnownProp]
 				if !pr.InitialNotComputed.Has(key.KnownProp) {
 					// The value is the same as when computed.
@@ -463,6 +459,12 @@ func (c *ComputedStyle) cascadeValue(key pr.PropKey) (value pr.DeclaredValue, sa
 				}
 			}
 		}
+	}
+
+	if value == pr.Inherit && c.isRootElement() {
+		// On the root element, "inherit" from initial values
+		// (also when "inherit" comes from a substituted var())
+		value = pr.Initial
 	}
 
 	if value == pr.Initial {
